@@ -72,6 +72,12 @@ def splitBlocks (parts : List DExpr) (x : FVec) : List FVec :=
 
 def concat (vs : List FVec) : FVec := ⟨vs.foldl (fun acc v => acc ++ v.a) #[]⟩
 
+/-- the shift of the log-sum-exp: `max (log wᵢ − mᵢ)` as numpy computes it (NaN propagates), replaced by 0 when it is not finite -/
+def mixShift (w m : List Float) : Float :=
+  let a := List.zipWith (fun wi mi => Float.log wi - mi) w m
+  let mx := a.foldl (fun acc v => if acc.isNaN || v.isNaN then (0.0 / 0.0) else if v > acc then v else acc) (-(1.0 / 0.0))
+  if mx.isFinite then mx else 0.0
+
 mutual
 /-- normalisation constant added to the misfit -/
 partial def normConst : DExpr → Float
@@ -102,7 +108,8 @@ partial def misfit : DExpr → FVec → Float
       let blocks := splitBlocks parts x
       ((List.zip parts blocks).foldl (fun acc pb => acc + misfit pb.1 pb.2) 0.0) + own.misfitBounds x
   | mixture parts w b, x =>
-      b.misfitBounds x + Dist.mixtureMisfit Float.exp Float.log 0.0 w.a.toList (parts.map (fun p => misfit p x))
+      let ms := parts.map (fun p => misfit p x)
+      b.misfitBounds x + Dist.mixtureMisfitShift Float.exp Float.log 0.0 (mixShift w.a.toList ms) w.a.toList ms
   | logT base inner b, x =>
       let y := x.map (Dist.logForward Float.log base)
       if y.anyP Float.isNaN then finf
@@ -128,7 +135,8 @@ partial def grad : DExpr → FVec → FVec
       let blocks := splitBlocks parts x
       (concat ((List.zip parts blocks).map (fun pb => grad pb.1 pb.2))).map (· + own.misfitBounds x)
   | mixture parts w _, x =>
-      let p := Dist.mixtureResp Float.exp Float.log w.a.toList (parts.map (fun q => misfit q x))
+      let ms := parts.map (fun q => misfit q x)
+      let p := Dist.mixtureRespShift Float.exp Float.log (mixShift w.a.toList ms) w.a.toList ms
       let gs := parts.map (fun q => grad q x)
       ⟨(List.range x.size).toArray.map (fun i => Dist.mixtureGrad1 0.0 p (gs.map (·.get i)))⟩
   | logT base inner b, x =>
